@@ -132,8 +132,9 @@ def ob_norm(D, groups, gi, pseudo=True):
                 layer = Lm.GroupNorm(sig, D, groups, eps) if groups > 1 else Lm.LayerNorm(sig, D, eps)
                 if key[0] == 1:
                     # learnable parameters away from their initial values: arbitrary reals
-                    layer.scale[key] = arr.source("SC", [cA] + [Atom(1)] * (D + 1))
-                    layer.bias[key] = arr.source("BI", [cA] + [Atom(1)] * (D + 1))
+                    # (with the shapes the real constructor gave them: a per-component scale would show up here)
+                    layer.scale[key] = arr.source("SC", list(arr.lift(layer.scale[key]).dims))
+                    layer.bias[key] = arr.source("BI", list(arr.lift(layer.bias[key]).dims))
                 y0 = layer(Gm.MultiImage({key: X}, D, True))
                 yg = layer(Gm.MultiImage({key: act_sym(X, D, key[0], key[1], g, lead=1)}, D, True))
             finally:
